@@ -87,14 +87,47 @@ Theorem C13_intvec_old_refuted :
 Proof. exact intvec_old_refuted. Qed.
 Print Assumptions C13_intvec_old_refuted.
 
-(* Boundary of the property (NOT a violation of it: no serializer writes such a file). The length element is
-   trusted before it is bounded: on the one-element file [2^64 - 1], MappedSlice<u64>::new(&map, 0) panics with
-   overflow checks on, and without them returns a view of 2^64 - 1 items that the mapping does not back. *)
-Theorem C13_scope_note_wrapping_length :
-  ms_new Debug 1 [2 ^ 64 - 1] 0 = VPanic POverflow /\
-  exists v, ms_new Release 1 [2 ^ 64 - 1] 0 = VOk v /\ ms_len v = 2 ^ 64 - 1 /\ ms_items1 v = OOB SITE_MAP_WORD.
-Proof. split; [reflexivity|]. eexists. split; [reflexivity|]. split; reflexivity. Qed.
-Print Assumptions C13_scope_note_wrapping_length.
+(* The length check of MappedSlice / MappedBytes / MappedStr before the repair 5f925c7
+   (`offset + 1 + len * T::elements() > map.len()`, `offset + 1 + bytes_to_words(len) > map.len()`) on the
+   library-written file of Vec<u64> [3, 2, 2^64-3, 2^64-3] viewed as MappedSlice<u64> at offset 3 (finding F12):
+   overflow panic with overflow checks on; without them the check wraps and `new` returns a view of 2^64-3 items
+   over a 5-element map, whose memory the mapping does not back. Same for the byte views on [2^64-1].
+   The repaired checks refuse both files in both build modes. *)
+Theorem C13_len_overflow_old_refuted :
+  ms_new_old Debug 1 f12_file 3 = VPanic POverflow /\
+  ms_new_old Release 1 f12_file 3 = VOk (mkms f12_file 3 (2 ^ 64 - 3)) /\
+  ms_items1 (mkms f12_file 3 (2 ^ 64 - 3)) = OOB SITE_MAP_WORD /\
+  mb_new_old Debug [2 ^ 64 - 1] 0 = VPanic POverflow /\
+  mb_new_old Release [2 ^ 64 - 1] 0 = VOk (mkmb [2 ^ 64 - 1] 0 (2 ^ 64 - 1)) /\
+  (forall m, ms_new m 1 f12_file 3 = VErr UnexpectedEof) /\
+  (forall m, mb_new m [2 ^ 64 - 1] 0 = VErr UnexpectedEof).
+Proof. exact len_overflow_old_refuted. Qed.
+Print Assumptions C13_len_overflow_old_refuted.
+
+(* ANY file (arbitrary elements, nothing assumed about what wrote it; fewer than 2^61 elements, i.e. a byte size
+   that fits in 64 bits), ANY offset below 2^64, every view type (slices, bytes, string, raw / integer vector
+   mappers, options of those to any depth), both build modes: `new` never panics and never reads outside the
+   mapping; it returns Err, or a view
+     - whose borrowed element range lies inside the file (view_inside: offset + 1 + len * elements <= |file| for
+       slices and the word slices of the mappers, offset + 1 + ceil(len / 8) <= |file| for bytes and strings,
+       recursively for the value of an option),
+     - through which every read finds its memory (view_backed: the whole borrowed range reads back),
+     - whose map_offset is the requested offset, and (all types but MappedOption) whose map_len ends inside the
+       file. MappedOption::map_len is the size element + 1 as found in the file: it is not checked against the
+       file or the nested view, and no memory access depends on it. *)
+Theorem C13_any_file_no_panic : forall m t file offset,
+  lenN file < 2 ^ 61 -> offset < 2 ^ 64 ->
+  match view_new m t file offset with
+  | VOk v =>
+      view_inside file v /\ view_backed v /\
+      view_map_offset m v = Ok offset /\
+      (is_opt t = false -> exists l, view_map_len m v = Ok l /\ offset + l <= lenN file)
+  | VErr _ => True
+  | VPanic _ => False
+  | VOOB _ => False
+  end.
+Proof. exact any_file_no_panic. Qed.
+Print Assumptions C13_any_file_no_panic.
 
 (* The model's reading of str::from_utf8 (the byte-range table 3-7 of the Unicode standard) accepts exactly the
    byte strings that decode, lead byte + 6-bit continuation bytes, to scalar values in shortest form
